@@ -284,151 +284,299 @@ func ruleLALR3(c *Ctx) {
 	}
 	info := pk.TypesInfo
 	reporters := changeReporters(p)
-	// existing := t.GetStateByKey(K)
-	type lookup struct {
-		state types.Object
-		key   ast.Expr
-		pos   token.Pos
-	}
-	var lookups []lookup
-	ast.Inspect(fd.Body, func(n ast.Node) bool {
-		as, ok := n.(*ast.AssignStmt)
-		if !ok || len(as.Lhs) != 1 || len(as.Rhs) != 1 {
-			return true
-		}
-		call, ok := as.Rhs[0].(*ast.CallExpr)
-		if ok && len(call.Args) == 1 {
-			if fn := calleeFunc(info, call); fn != nil && fn.Name() == "GetStateByKey" {
-				lookups = append(lookups, lookup{usesObj(info, as.Lhs[0]), call.Args[0], as.Pos()})
-			}
-		}
-		return true
-	})
-	checked := 0
-	par := parents(fd)
-	ast.Inspect(fd.Body, func(n ast.Node) bool {
-		call, ok := n.(*ast.CallExpr)
-		if !ok {
-			return true
-		}
-		fn := calleeFunc(info, call)
-		if fn == nil || !reporters[fn.Origin()] {
-			return true
-		}
+	scope := funcScope(p, pk, fd, 2)
+	declOf := func(n ast.Node) *ast.FuncDecl { d, _ := n.(*ast.FuncDecl); return d }
+	isPendingAdd := func(call *ast.CallExpr) bool {
 		sel, ok := call.Fun.(*ast.SelectorExpr)
-		if !ok {
-			return true
-		}
-		var lk *lookup
-		for i := range lookups {
-			if usesObj(info, sel.X) == lookups[i].state {
-				lk = &lookups[i]
+		return ok && sel.Sel.Name == "Add" && len(call.Args) == 1 && isStringSet(info.TypeOf(sel.X))
+	}
+	// requeued reports whether, in function fn, the truth of flag (alone) leads to
+	// pending.Add(key) for a key accepted by isKey; when fn hands flag and key back to its
+	// caller instead, the question is asked there.
+	var requeued func(fn *ast.FuncDecl, flag types.Object, isKey func(ast.Expr) bool, depth int) (bool, string)
+	requeued = func(fn *ast.FuncDecl, flag types.Object, isKey func(ast.Expr) bool, depth int) (bool, string) {
+		par := parents(fn)
+		why := "no `pending.Add(key)` is reached under `" + flag.Name() + "`"
+		ok := false
+		ast.Inspect(fn.Body, func(m ast.Node) bool {
+			call, isCall := m.(*ast.CallExpr)
+			if !isCall || !isPendingAdd(call) || !isKey(call.Args[0]) {
+				return true
 			}
-		}
-		if lk == nil {
-			return true
-		}
-		checked++
-		construct := fmt.Sprintf("lr1.ConstructLALR/merge(%s.%s)", exprString(sel.X), sel.Sel.Name)
-		// the result must reach a flag variable
-		var flag types.Object
-		for q := par[call]; q != nil; q = par[q] {
-			if as, ok := q.(*ast.AssignStmt); ok && len(as.Lhs) == 1 {
-				flag = usesObj(info, as.Lhs[0])
-				break
-			}
-			if ifs, ok := q.(*ast.IfStmt); ok && containsNode(ifs.Cond, call) {
-				// if X.Add(..) { changed = true }
-				for _, s := range ifs.Body.List {
-					if as, ok := s.(*ast.AssignStmt); ok && len(as.Lhs) == 1 && exprString(as.Rhs[0]) == "true" {
-						flag = usesObj(info, as.Lhs[0])
+			onlyFlag, hasFlag := true, false
+			for _, f := range pathConds(info, par, call) {
+				if usesObj(info, f.e) == flag {
+					if !f.neg {
+						hasFlag = true
 					}
+					continue
 				}
-				break
+				// any other condition established after the flag came into existence narrows
+				// the re-queue
+				if mentionsObj(info, f.e, flag) || f.e.Pos() >= flag.Pos() {
+					onlyFlag = false
+					why = fmt.Sprintf("the re-queue is guarded by `%s`, not by the change flag alone: some grown states are never re-expanded", exprString(f.e))
+				}
 			}
-			if _, ok := q.(*ast.ExprStmt); ok {
-				break
+			if hasFlag && onlyFlag {
+				ok = true
 			}
-		}
-		if flag == nil {
-			c.bad(rule, construct, p.Pos(call.Pos()), "lookaheads are merged into an existing state but the 'changed' result is not recorded: the state is never re-expanded with its new lookaheads")
 			return true
+		})
+		if ok {
+			return true, ""
 		}
-		// if <flag> { pending.Add(K) } with K the key the state was looked up with
-		okReq := false
-		why := "no `if " + flag.Name() + " { pending.Add(key) }` follows the merge"
-		ast.Inspect(fd.Body, func(m ast.Node) bool {
-			ifs, ok := m.(*ast.IfStmt)
-			if !ok || ifs.Pos() < call.End() {
+		if depth >= 2 || fn.Type.Results == nil {
+			return false, why
+		}
+		// handed back to the caller: every return passes the flag (or true) at one position and a
+		// key at another
+		flagPos, keyPos := -1, -1
+		nRes := 0
+		for _, f := range fn.Type.Results.List {
+			if len(f.Names) == 0 {
+				nRes++
+				continue
+			}
+			for _, nm := range f.Names {
+				if info.Defs[nm] == flag {
+					flagPos = nRes
+				}
+				nRes++
+			}
+		}
+		okRet := true
+		nRet := 0
+		inspectNoLit(fn.Body, func(m ast.Node) bool {
+			rs, isRet := m.(*ast.ReturnStmt)
+			if !isRet {
 				return true
 			}
-			if !mentionsObj(info, ifs.Cond, flag) {
+			nRet++
+			if len(rs.Results) == 0 {
+				okRet = okRet && flagPos >= 0
 				return true
 			}
-			if usesObj(info, ifs.Cond) != flag {
-				why = fmt.Sprintf("the re-queue is guarded by `%s`, not by the change flag alone: some grown states are never re-expanded", exprString(ifs.Cond))
-				return true
-			}
-			for _, s := range ifs.Body.List {
-				if es, ok := s.(*ast.ExprStmt); ok {
-					if c2, ok := es.X.(*ast.CallExpr); ok && len(c2.Args) == 1 && sameExpr(c2.Args[0], lk.key) {
-						if s2, ok := c2.Fun.(*ast.SelectorExpr); ok && s2.Sel.Name == "Add" {
-							okReq = true
-						}
+			for i, r := range rs.Results {
+				if usesObj(info, r) == flag || (exprString(r) == "true" && (flagPos == i || flagPos < 0)) {
+					if flagPos >= 0 && flagPos != i {
+						okRet = false
 					}
+					flagPos = i
+				}
+				if isKey(r) {
+					keyPos = i
+				}
+			}
+			if flagPos < 0 || flagPos >= len(rs.Results) || !(usesObj(info, rs.Results[flagPos]) == flag || exprString(rs.Results[flagPos]) == "true") {
+				okRet = false
+			}
+			return true
+		})
+		if !okRet || nRet == 0 || flagPos < 0 || keyPos < 0 {
+			return false, why
+		}
+		fnObj, _ := info.Defs[fn.Name].(*types.Func)
+		found, allOK := false, true
+		for _, sc := range scope {
+			caller := declOf(sc.node)
+			if caller == nil || caller == fn {
+				continue
+			}
+			ast.Inspect(caller.Body, func(m ast.Node) bool {
+				as, isAs := m.(*ast.AssignStmt)
+				if !isAs || len(as.Rhs) != 1 {
+					return true
+				}
+				call, isCall := ast.Unparen(as.Rhs[0]).(*ast.CallExpr)
+				if !isCall || calleeFunc(info, call) != fnObj || len(as.Lhs) <= flagPos || len(as.Lhs) <= keyPos {
+					return true
+				}
+				found = true
+				f2 := usesObj(info, as.Lhs[flagPos])
+				k2 := usesObj(info, as.Lhs[keyPos])
+				if f2 == nil || k2 == nil {
+					allOK = false
+					why = "the caller discards the change flag or the key returned by " + fn.Name.Name
+					return true
+				}
+				ok2, why2 := requeued(caller, f2, func(e ast.Expr) bool { return usesObj(info, e) == k2 }, depth+1)
+				if !ok2 {
+					allOK = false
+					why = why2
+				}
+				return true
+			})
+		}
+		if !found {
+			return false, "the change flag is returned by " + fn.Name.Name + " but no caller receives it"
+		}
+		return allOK, why
+	}
+
+	checked := 0
+	for _, sc := range scope {
+		fn := declOf(sc.node)
+		if fn == nil {
+			continue
+		}
+		par := parents(fn)
+		// existing := t.GetStateByKey(K)
+		type lookup struct {
+			state types.Object
+			key   ast.Expr
+		}
+		var lookups []lookup
+		ast.Inspect(fn.Body, func(n ast.Node) bool {
+			as, ok := n.(*ast.AssignStmt)
+			if !ok || len(as.Lhs) != 1 || len(as.Rhs) != 1 {
+				return true
+			}
+			call, ok := as.Rhs[0].(*ast.CallExpr)
+			if ok && len(call.Args) == 1 {
+				if f := calleeFunc(info, call); f != nil && f.Name() == "GetStateByKey" {
+					lookups = append(lookups, lookup{usesObj(info, as.Lhs[0]), call.Args[0]})
 				}
 			}
 			return true
 		})
-		c.check(okReq, rule, construct, p.Pos(call.Pos()),
-			fmt.Sprintf("every lookahead merged into an existing state sets %s, and `if %s` alone re-queues the state's key", flag.Name(), flag.Name()), why)
-		// the flag is fresh for each target state
-		freshFlag := false
-		for q := par[call]; q != nil; q = par[q] {
-			if blk, ok := q.(*ast.BlockStmt); ok {
-				for _, s := range blk.List {
-					if as, ok := s.(*ast.AssignStmt); ok && as.Tok == token.DEFINE && len(as.Lhs) == 1 && info.Defs[as.Lhs[0].(*ast.Ident)] == flag && exprString(as.Rhs[0]) == "false" {
-						if _, inRange := par[blk].(*ast.RangeStmt); inRange {
-							freshFlag = true
+		ast.Inspect(fn.Body, func(n ast.Node) bool {
+			call, ok := n.(*ast.CallExpr)
+			if !ok {
+				return true
+			}
+			f := calleeFunc(info, call)
+			if f == nil || !reporters[f.Origin()] {
+				return true
+			}
+			sel, ok := call.Fun.(*ast.SelectorExpr)
+			if !ok {
+				return true
+			}
+			var lk *lookup
+			for i := range lookups {
+				if usesObj(info, sel.X) == lookups[i].state {
+					lk = &lookups[i]
+				}
+			}
+			if lk == nil {
+				return true
+			}
+			checked++
+			construct := fmt.Sprintf("lr1.ConstructLALR/merge(%s.%s)", exprString(sel.X), sel.Sel.Name)
+			// the result must reach a flag variable
+			var flag types.Object
+			for q := par[call]; q != nil; q = par[q] {
+				if as, ok := q.(*ast.AssignStmt); ok && len(as.Lhs) == 1 {
+					flag = usesObj(info, as.Lhs[0])
+					break
+				}
+				if ifs, ok := q.(*ast.IfStmt); ok && containsNode(ifs.Cond, call) {
+					// if X.Add(..) { changed = true }
+					for _, s := range ifs.Body.List {
+						if as, ok := s.(*ast.AssignStmt); ok && len(as.Lhs) == 1 && exprString(as.Rhs[0]) == "true" {
+							flag = usesObj(info, as.Lhs[0])
+						}
+					}
+					break
+				}
+				if _, ok := q.(*ast.ExprStmt); ok {
+					break
+				}
+			}
+			if flag == nil {
+				c.bad(rule, construct, p.Pos(call.Pos()), "lookaheads are merged into an existing state but the 'changed' result is not recorded: the state is never re-expanded with its new lookaheads")
+				return true
+			}
+			keyObj := usesObj(info, lk.key)
+			okReq, why := requeued(fn, flag, func(e ast.Expr) bool {
+				return sameExpr(e, lk.key) || (keyObj != nil && usesObj(info, e) == keyObj)
+			}, 0)
+			c.check(okReq, rule, construct, p.Pos(call.Pos()),
+				fmt.Sprintf("every lookahead merged into an existing state sets %s, and the truth of %s alone re-queues the state's key", flag.Name(), flag.Name()), why)
+			// the flag is fresh for each target state: a result or local of a helper called per
+			// (state, symbol) pair, or declared false inside the loop over the symbols
+			freshFlag := fn != fd
+			if v, isVar := flag.(*types.Var); isVar && fn == fd {
+				for q := par[call]; q != nil; q = par[q] {
+					blk, ok := q.(*ast.BlockStmt)
+					if !ok {
+						continue
+					}
+					for _, s := range blk.List {
+						declares := false
+						switch x := s.(type) {
+						case *ast.AssignStmt:
+							if x.Tok == token.DEFINE && len(x.Lhs) == 1 && usesObj(info, x.Lhs[0]) == types.Object(v) && exprString(x.Rhs[0]) == "false" {
+								declares = true
+							}
+						case *ast.DeclStmt:
+							ast.Inspect(x, func(k ast.Node) bool {
+								if vs, ok := k.(*ast.ValueSpec); ok && len(vs.Values) == 0 {
+									for _, nm := range vs.Names {
+										if info.Defs[nm] == types.Object(v) {
+											declares = true
+										}
+									}
+								}
+								return true
+							})
+						}
+						if declares {
+							switch par[blk].(type) {
+							case *ast.RangeStmt, *ast.ForStmt:
+								freshFlag = true
+							}
 						}
 					}
 				}
 			}
-		}
-		c.check(freshFlag, rule, construct+"/flag-scope", p.Pos(call.Pos()), "the change flag starts false for every (state, symbol) pair", "the change flag is not reset per target state")
-		return true
-	})
+			c.check(freshFlag, rule, construct+"/flag-scope", p.Pos(call.Pos()), "the change flag starts false for every (state, symbol) pair", "the change flag is not reset per target state")
+			return true
+		})
+	}
 	if checked == 0 {
 		c.unres(rule, "lr1.ConstructLALR/merge", p.Pos(fd.Pos()), "no merge of lookaheads into a state obtained from GetStateByKey was found")
 	}
-	// new states are always queued
+	// new states are always queued: the block that creates the state sets the flag, returns true
+	// in its place, or adds the key itself
 	okNew := false
-	ast.Inspect(fd.Body, func(n ast.Node) bool {
-		blk, ok := n.(*ast.BlockStmt)
-		if !ok {
-			return true
-		}
-		hasAddState, setsFlag := false, false
-		for _, s := range blk.List {
-			if es, ok := s.(*ast.ExprStmt); ok {
-				if call, ok := es.X.(*ast.CallExpr); ok {
-					if fn := calleeFunc(info, call); fn != nil && fn.Name() == "AddState" {
-						hasAddState = true
+	for _, sc := range scope {
+		ast.Inspect(sc.node, func(n ast.Node) bool {
+			blk, ok := n.(*ast.BlockStmt)
+			if !ok {
+				return true
+			}
+			hasAddState, setsFlag := false, false
+			for _, s := range blk.List {
+				switch x := s.(type) {
+				case *ast.ExprStmt:
+					if call, ok := x.X.(*ast.CallExpr); ok {
+						if f := calleeFunc(info, call); f != nil && f.Name() == "AddState" {
+							hasAddState = true
+						}
+						if hasAddState && isPendingAdd(call) {
+							setsFlag = true
+						}
 					}
-					if s2, ok := call.Fun.(*ast.SelectorExpr); ok && s2.Sel.Name == "Add" && hasAddState && len(call.Args) == 1 {
+				case *ast.AssignStmt:
+					if hasAddState && len(x.Rhs) == 1 && exprString(x.Rhs[0]) == "true" {
 						setsFlag = true
+					}
+				case *ast.ReturnStmt:
+					for _, r := range x.Results {
+						if hasAddState && exprString(r) == "true" {
+							setsFlag = true
+						}
 					}
 				}
 			}
-			if as, ok := s.(*ast.AssignStmt); ok && hasAddState && len(as.Rhs) == 1 && exprString(as.Rhs[0]) == "true" {
-				setsFlag = true
+			if hasAddState && setsFlag {
+				okNew = true
 			}
-		}
-		if hasAddState && setsFlag {
-			okNew = true
-		}
-		return true
-	})
+			return true
+		})
+	}
 	c.check(okNew, rule, "lr1.ConstructLALR/new-state-queued", p.Pos(fd.Pos()), "a newly created state is always queued for expansion", "a newly created state is not queued for expansion")
 	// loop runs until the pending set is empty
 	okLoop := false
@@ -524,7 +672,22 @@ func ruleLALR4(c *Ctx) {
 				g := p.CFG(pk, fd)
 				okPath := false
 				if mp, found := cfgLocate(g, mutCall); found {
-					escaped := cfgForward(g, []cfgPos{mp}, false, isReset, nil)
+					starts, incl := []cfgPos{mp}, false
+					// `if [!]s.set.Add(x) {…}`: the set changed only on the edge where the
+					// change-reporting call returned true; the other edge needs no reset
+					if blk := mp.b; len(blk.Nodes) > 0 && len(blk.Succs) == 2 {
+						if cond, isExpr := blk.Nodes[len(blk.Nodes)-1].(ast.Expr); isExpr && containsNode(cond, mutCall) {
+							if fnc := calleeFunc(info, mutCall); fnc != nil && changeReporters(p)[fnc.Origin()] {
+								ce := ast.Unparen(cond)
+								if u, isNot := ce.(*ast.UnaryExpr); isNot && u.Op == token.NOT && ast.Unparen(u.X) == ast.Expr(mutCall) {
+									starts, incl = []cfgPos{{blk.Succs[1], 0}}, true
+								} else if ce == ast.Expr(mutCall) {
+									starts, incl = []cfgPos{{blk.Succs[0], 0}}, true
+								}
+							}
+						}
+					}
+					escaped := cfgForward(g, starts, incl, isReset, nil)
 					okPath = !escaped || mustPassBefore(g, mutCall, isReset)
 				}
 				c.check(okPath, rule, construct, p.Pos(fd.Pos()), "the memoised Items() slice is dropped whenever the set is mutated", "the set can be mutated on a path that keeps the memoised Items() slice")
@@ -671,11 +834,52 @@ func ruleLALR5(c *Ctx) {
 	// IsKernel
 	_, ik := p.FuncDecl("internal/parsergen/lr1", "Item.IsKernel")
 	okK := false
-	if ik != nil && len(ik.Body.List) == 1 {
-		if rs, ok := ik.Body.List[0].(*ast.ReturnStmt); ok {
-			s := exprString(rs.Results[0])
-			okK = s == "i.Prod == sPrimeProdIndex || i.Dot != 0" || s == "i.Dot != 0 || i.Prod == sPrimeProdIndex"
+	if ik != nil {
+		// the conditions under which IsKernel returns true: `return A || B`, or
+		// `if A { return true }; return B`
+		var trueWhen []ast.Expr
+		shapeOK := true
+		for i, st := range ik.Body.List {
+			switch x := st.(type) {
+			case *ast.ReturnStmt:
+				if i != len(ik.Body.List)-1 || len(x.Results) != 1 {
+					shapeOK = false
+				} else if exprString(x.Results[0]) != "false" {
+					trueWhen = append(trueWhen, disjuncts(x.Results[0])...)
+				}
+			case *ast.IfStmt:
+				if x.Init == nil && x.Else == nil && len(x.Body.List) == 1 {
+					if rs, ok := x.Body.List[0].(*ast.ReturnStmt); ok && len(rs.Results) == 1 && exprString(rs.Results[0]) == "true" {
+						trueWhen = append(trueWhen, disjuncts(x.Cond)...)
+						continue
+					}
+				}
+				shapeOK = false
+			default:
+				shapeOK = false
+			}
 		}
+		sawStart, sawDot := false, false
+		for _, e := range trueWhen {
+			l, op, r, ok := cmpFact(e, true)
+			if !ok {
+				shapeOK = false
+				continue
+			}
+			for _, pr := range [][2]ast.Expr{{l, r}, {r, l}} {
+				if isField(info, pr[0], "parsergen/lr1", "Item", "Prod") && op == token.EQL {
+					if o := usesObj(info, pr[1]); o != nil && o.Name() == "sPrimeProdIndex" {
+						sawStart = true
+					}
+				}
+				if isField(info, pr[0], "parsergen/lr1", "Item", "Dot") {
+					if v, isC := constInt(info, pr[1]); isC && ((v == 0 && (op == token.NEQ || (op == token.GTR && pr[0] == l) || (op == token.LSS && pr[0] == r))) || (v == 1 && ((op == token.GEQ && pr[0] == l) || (op == token.LEQ && pr[0] == r)))) {
+						sawDot = true
+					}
+				}
+			}
+		}
+		okK = shapeOK && sawStart && sawDot && len(trueWhen) == 2
 	}
 	c.check(okK, rule, "lr1.Item.IsKernel", "", "kernel = start item or dot not at the beginning", "IsKernel is not `Prod == sPrime || Dot != 0`")
 }
@@ -735,6 +939,7 @@ func ruleLALR6(c *Ctx) {
 		}
 	}
 	c.check(okFirst, rule, "lr1.Closure/first-of-beta-a", p.Pos(fd.Pos()), "lookaheads of new items are FIRST(beta a): beta = prod.Terms[Dot+1:], a = the item's lookahead", why)
+	checkLookaheadSources(c, rule, pk, fd, firstCall)
 	// new items: Item{Prod: prodB.Index, Dot: 0, Lookahead: t.Index}
 	okItem := false
 	ast.Inspect(fd.Body, func(n ast.Node) bool {
@@ -878,55 +1083,74 @@ func ruleLALR7(c *Ctx) {
 		return out
 	}
 	isLookaheadTerminal := func(e ast.Expr) bool {
-		ix, ok := ast.Unparen(e).(*ast.IndexExpr)
+		ix, ok := ast.Unparen(resolveLocal(info, fd, e)).(*ast.IndexExpr)
 		return ok && isField(info, ix.X, "parsergen/lr1", "Grammar", "Terminals") && isField(info, ix.Index, "parsergen/lr1", "Item", "Lookahead")
 	}
 	isItemProd := func(e ast.Expr) bool {
-		ix, ok := ast.Unparen(e).(*ast.IndexExpr)
+		ix, ok := ast.Unparen(resolveLocal(info, fd, e)).(*ast.IndexExpr)
 		return ok && isField(info, ix.X, "parsergen/lr1", "Grammar", "Prods") && isField(info, ix.Index, "parsergen/lr1", "Item", "Prod")
 	}
 	par := parents(fd)
-	condsOf := func(n ast.Node) []string {
-		var cs []string
-		for q := par[n]; q != nil; q = par[q] {
-			if ifs, ok := q.(*ast.IfStmt); ok {
-				if containsNode(ifs.Body, n) {
-					cs = append(cs, exprString(ifs.Cond))
-				} else if ifs.Else != nil && containsNode(ifs.Else, n) {
-					cs = append(cs, "!("+exprString(ifs.Cond)+")")
+	// path facts, classified by the resolved fields they compare
+	type factKind int
+	const (
+		fComplete factKind = iota + 1
+		fNotComplete
+		fStart
+		fNotStart
+	)
+	classify := func(e ast.Expr, pos bool) factKind {
+		l, op, r, ok := cmpFact(e, pos)
+		if !ok {
+			return 0
+		}
+		isLenTerms := func(x ast.Expr) bool {
+			call, ok := ast.Unparen(x).(*ast.CallExpr)
+			return ok && builtinName(info, call) == "len" && len(call.Args) == 1 && isField(info, call.Args[0], "parsergen/lr1", "Prod", "Terms")
+		}
+		for _, pr := range [][2]ast.Expr{{l, r}, {r, l}} {
+			dotFirst := pr[0] == l
+			if isField(info, pr[0], "parsergen/lr1", "Item", "Dot") && isLenTerms(pr[1]) {
+				switch {
+				case op == token.EQL, op == token.GEQ && dotFirst, op == token.LEQ && !dotFirst:
+					return fComplete
+				case op == token.NEQ, op == token.LSS && dotFirst, op == token.GTR && !dotFirst:
+					return fNotComplete
+				}
+			}
+			if isField(info, pr[0], "parsergen/lr1", "Item", "Prod") {
+				if o := usesObj(info, pr[1]); o != nil && o.Name() == "sPrimeProdIndex" {
+					switch op {
+					case token.EQL:
+						return fStart
+					case token.NEQ:
+						return fNotStart
+					}
 				}
 			}
 		}
-		return cs
+		return 0
+	}
+	factsOf := func(n ast.Node) map[factKind]bool {
+		out := map[factKind]bool{}
+		for _, f := range expandFacts(info, localDefs(info, fd), pathConds(info, par, n)) {
+			ff := flattenNot(f)
+			if k := classify(ff.e, !ff.neg); k != 0 {
+				out[k] = true
+			}
+		}
+		return out
 	}
 	acc, red, sh := find("AddAccept"), find("AddReduce"), find("AddShift")
 	if acc == nil || red == nil || sh == nil {
 		c.unres(rule, "lr1.createActions", p.Pos(fd.Pos()), "AddAccept/AddReduce/AddShift calls not found")
 		return
 	}
-	complete := func(cs []string) bool {
-		for _, s := range cs {
-			if s == "item.Dot == len(prod.Terms)" || s == "len(prod.Terms) == item.Dot" {
-				return true
-			}
-		}
-		return false
-	}
-	hasCond := func(cs []string, want ...string) bool {
-		for _, s := range cs {
-			for _, w := range want {
-				if s == w {
-					return true
-				}
-			}
-		}
-		return false
-	}
-	ac := condsOf(acc)
-	c.check(complete(ac) && hasCond(ac, "item.Prod == sPrimeProdIndex") && len(acc.Args) == 1 && isLookaheadTerminal(acc.Args[0]), rule, "lr1.createActions/accept", p.Pos(acc.Pos()),
+	ac := factsOf(acc)
+	c.check(ac[fComplete] && ac[fStart] && len(acc.Args) == 1 && isLookaheadTerminal(acc.Args[0]), rule, "lr1.createActions/accept", p.Pos(acc.Pos()),
 		"complete item of the start production => accept on its lookahead", "accept is not created exactly for the complete start item on its own lookahead")
-	rc := condsOf(red)
-	c.check(complete(rc) && hasCond(rc, "!(item.Prod == sPrimeProdIndex)", "item.Prod != sPrimeProdIndex") && len(red.Args) == 2 && isLookaheadTerminal(red.Args[0]) && isItemProd(red.Args[1]), rule, "lr1.createActions/reduce", p.Pos(red.Pos()),
+	rc := factsOf(red)
+	c.check(rc[fComplete] && rc[fNotStart] && len(red.Args) == 2 && isLookaheadTerminal(red.Args[0]) && isItemProd(red.Args[1]), rule, "lr1.createActions/reduce", p.Pos(red.Pos()),
 		"other complete item => reduce by that production on that item's lookahead", "reduce is not created for the item's own production on the item's own lookahead")
 	// shift: terminal after the dot, target = Transitions(state).Get(terminal)
 	okShift := len(sh.Args) == 3 && isItemProd(sh.Args[2])
@@ -940,13 +1164,27 @@ func ruleLALR7(c *Ctx) {
 			okShift = false
 		}
 	}
-	sc := condsOf(sh)
-	notComplete := false
-	for _, s := range sc {
-		if strings.HasPrefix(s, "!(item.Dot == len(prod.Terms))") || strings.Contains(s, "prod.Terms[item.Dot].(*Terminal)") {
-			notComplete = true
-		}
+	// the shifted terminal is the symbol after the dot (which implies the item is not complete)
+	notComplete := factsOf(sh)[fNotComplete]
+	afterDot := false
+	if len(sh.Args) == 3 {
+		termObj := usesObj(info, sh.Args[0])
+		ast.Inspect(fd.Body, func(n ast.Node) bool {
+			as, ok := n.(*ast.AssignStmt)
+			if !ok || len(as.Rhs) != 1 || termObj == nil || usesObj(info, as.Lhs[0]) != termObj {
+				return true
+			}
+			if ta, ok := ast.Unparen(as.Rhs[0]).(*ast.TypeAssertExpr); ok {
+				src := resolveLocal(info, fd, ta.X)
+				if ix, ok := ast.Unparen(src).(*ast.IndexExpr); ok && isField(info, ix.X, "parsergen/lr1", "Prod", "Terms") && isField(info, ix.Index, "parsergen/lr1", "Item", "Dot") {
+					afterDot = true
+				}
+			}
+			return true
+		})
 	}
+	notComplete = notComplete || afterDot
+	okShift = okShift && afterDot
 	c.check(okShift && notComplete, rule, "lr1.createActions/shift", p.Pos(sh.Pos()),
 		"item with a terminal after the dot => shift to Transitions(state).Get(that terminal), remembering the production", "shift is not created to the transition target of the terminal after the dot")
 	// every item of every state is visited
@@ -964,4 +1202,228 @@ func ruleLALR7(c *Ctx) {
 		return true
 	})
 	c.check(okAll, rule, "lr1.createActions/all-items", p.Pos(fd.Pos()), "every item of every state contributes its action", "createActions does not visit every item of every state")
+}
+
+// checkLookaheadSources: the set the new closure items' lookaheads range over must be FIRST(beta a)
+// of the item being expanded on every path. Accepted sources of that set:
+//   - the (already checked) First(g, append(beta, a)) call,
+//   - Add(a) under the path fact len(beta) == 0 (FIRST(a) = {a}),
+//   - a memo lookup whose key contains the item's lookahead (beta is fixed by (Prod, Dot), a by
+//     Lookahead: a key without Lookahead returns another item's set whenever beta is nullable).
+// Any other source is reported.
+func checkLookaheadSources(c *Ctx, rule string, pk *packages.Package, fd *ast.FuncDecl, firstCall *ast.CallExpr) {
+	p := c.Prog
+	info := pk.TypesInfo
+	const construct = "lr1.Closure/lookahead-sources"
+	par := parents(fd)
+	// the variable t in Item{..., Lookahead: t.Index}
+	var tObj types.Object
+	ast.Inspect(fd.Body, func(n ast.Node) bool {
+		cl, ok := n.(*ast.CompositeLit)
+		if !ok || !typeIs(info.TypeOf(cl), "parsergen/lr1", "Item") {
+			return true
+		}
+		for _, el := range cl.Elts {
+			if kv, ok := el.(*ast.KeyValueExpr); ok && exprString(kv.Key) == "Lookahead" {
+				if sel, ok := ast.Unparen(kv.Value).(*ast.SelectorExpr); ok && isField(info, sel, "parsergen/lr1", "Terminal", "Index") {
+					tObj = usesObj(info, sel.X)
+				}
+			}
+		}
+		return true
+	})
+	if tObj == nil {
+		c.unres(rule, construct, p.Pos(fd.Pos()), "the lookahead variable of the new items was not found")
+		return
+	}
+	// the set it ranges over
+	var setExpr ast.Expr
+	ast.Inspect(fd.Body, func(n ast.Node) bool {
+		switch x := n.(type) {
+		case *ast.FuncLit:
+			for _, f := range x.Type.Params.List {
+				for _, nm := range f.Names {
+					if info.Defs[nm] == tObj {
+						if call, ok := par[x].(*ast.CallExpr); ok {
+							if sel, ok := call.Fun.(*ast.SelectorExpr); ok {
+								setExpr = sel.X
+							}
+						}
+					}
+				}
+			}
+		case *ast.RangeStmt:
+			for _, e := range []ast.Expr{x.Key, x.Value} {
+				if id, ok := e.(*ast.Ident); ok && (info.Defs[id] == tObj || info.Uses[id] == tObj) {
+					setExpr = x.X
+					if call, ok := ast.Unparen(x.X).(*ast.CallExpr); ok {
+						if sel, ok := call.Fun.(*ast.SelectorExpr); ok {
+							setExpr = sel.X
+						}
+					}
+				}
+			}
+		}
+		return true
+	})
+	setObj := usesObj(info, setExpr)
+	if _, isSel := ast.Unparen(setExpr).(*ast.SelectorExpr); setExpr == nil || setObj == nil || isSel {
+		// iterating the call's result directly
+		if call, ok := ast.Unparen(setExpr).(*ast.CallExpr); ok && call == firstCall {
+			c.ok(rule, construct, p.Pos(fd.Pos()), "the new items' lookaheads range directly over the First call's result")
+			return
+		}
+		c.unres(rule, construct, p.Pos(fd.Pos()), "the set the new items' lookaheads range over was not identified")
+		return
+	}
+	isLookaheadTerminal := func(e ast.Expr) bool {
+		ix, ok := ast.Unparen(resolveLocal(info, fd, e)).(*ast.IndexExpr)
+		return ok && isField(info, ix.X, "parsergen/lr1", "Grammar", "Terminals") && isField(info, ix.Index, "parsergen/lr1", "Item", "Lookahead")
+	}
+	keyHasLookahead := func(key ast.Expr) bool {
+		found := false
+		ast.Inspect(key, func(n ast.Node) bool {
+			e, ok := n.(ast.Expr)
+			if !ok {
+				return true
+			}
+			if isField(info, e, "parsergen/lr1", "Item", "Lookahead") || isLookaheadTerminal(e) {
+				found = true
+			}
+			if sel, ok := e.(*ast.SelectorExpr); ok {
+				if _, isVar := info.Uses[sel.Sel].(*types.Var); isVar {
+					return false // item.Prod mentions only that field, not the whole item
+				}
+			}
+			if id, ok := e.(*ast.Ident); ok {
+				if t := info.TypeOf(id); t != nil && typeIs(t, "parsergen/lr1", "Item") {
+					found = true
+				}
+			}
+			return true
+		})
+		return found
+	}
+	betaEmptyAt := func(n ast.Node) bool {
+		return holds(pathConds(info, par, n), func(e ast.Expr, pos bool) bool {
+			l, op, r, ok := cmpFact(e, pos)
+			if !ok || op != token.EQL {
+				return false
+			}
+			for _, pr := range [][2]ast.Expr{{l, r}, {r, l}} {
+				if v, isC := constInt(info, pr[1]); isC && v == 0 {
+					if call, ok := pr[0].(*ast.CallExpr); ok && builtinName(info, call) == "len" && len(call.Args) == 1 {
+						if sl, ok := ast.Unparen(resolveLocal(info, fd, call.Args[0])).(*ast.SliceExpr); ok && sl.High == nil && isField(info, sl.X, "parsergen/lr1", "Prod", "Terms") {
+							if b, k, ok := addConst(info, sl.Low); ok && k == 1 && strings.HasSuffix(b, ".Dot") {
+								return true
+							}
+						}
+					}
+				}
+			}
+			return false
+		})
+	}
+	var problems []string
+	nSources := 0
+	seen := map[types.Object]bool{}
+	var classify func(e ast.Expr, at ast.Node)
+	var sourcesOf func(o types.Object)
+	memo := func(ix *ast.IndexExpr) {
+		if t := info.TypeOf(ix.X); t != nil {
+			if _, isMap := t.Underlying().(*types.Map); isMap {
+				nSources++
+				if !keyHasLookahead(ix.Index) {
+					problems = append(problems, fmt.Sprintf("%s: memoised set looked up by `%s`, which omits the item's lookahead: when beta is nullable FIRST(beta a) depends on a", p.Pos(ix.Pos()), exprString(ix.Index)))
+				}
+				return
+			}
+		}
+		problems = append(problems, fmt.Sprintf("%s: lookahead set read from `%s`", p.Pos(ix.Pos()), exprString(ix)))
+	}
+	classify = func(e ast.Expr, at ast.Node) {
+		e = ast.Unparen(e)
+		switch x := e.(type) {
+		case *ast.CallExpr:
+			if x == firstCall {
+				nSources++
+				return
+			}
+			if fn := calleeFunc(info, x); fn != nil && (fn.Name() == "Clone" || fn.Name() == "Copy") {
+				if sel, ok := x.Fun.(*ast.SelectorExpr); ok {
+					classify(sel.X, at)
+					return
+				}
+			}
+			problems = append(problems, fmt.Sprintf("%s: lookahead set comes from `%s`, not from the checked First(beta a) call", p.Pos(x.Pos()), truncate(exprString(x), 60)))
+		case *ast.IndexExpr:
+			memo(x)
+		case *ast.Ident:
+			if o := usesObj(info, x); o != nil {
+				sourcesOf(o)
+			}
+		default:
+			problems = append(problems, fmt.Sprintf("%s: lookahead set comes from `%s`", p.Pos(e.Pos()), truncate(exprString(e), 60)))
+		}
+	}
+	sourcesOf = func(o types.Object) {
+		if seen[o] {
+			return
+		}
+		seen[o] = true
+		ast.Inspect(fd.Body, func(n ast.Node) bool {
+			switch x := n.(type) {
+			case *ast.AssignStmt:
+				for i, l := range x.Lhs {
+					if usesObj(info, l) != o {
+						continue
+					}
+					if _, isSel := ast.Unparen(l).(*ast.SelectorExpr); isSel {
+						continue
+					}
+					switch {
+					case len(x.Lhs) == len(x.Rhs):
+						classify(x.Rhs[i], x)
+					case len(x.Rhs) == 1 && i == 0:
+						classify(x.Rhs[0], x) // v, ok := m[k]
+					}
+				}
+			case *ast.ValueSpec:
+				for i, nm := range x.Names {
+					if info.Defs[nm] == o && i < len(x.Values) {
+						classify(x.Values[i], x)
+					}
+				}
+			case *ast.CallExpr:
+				sel, ok := x.Fun.(*ast.SelectorExpr)
+				if !ok || usesObj(info, sel.X) != o {
+					return true
+				}
+				if _, isSel := ast.Unparen(sel.X).(*ast.SelectorExpr); isSel {
+					return true
+				}
+				switch sel.Sel.Name {
+				case "Add":
+					nSources++
+					if !(len(x.Args) == 1 && isLookaheadTerminal(x.Args[0]) && betaEmptyAt(x)) {
+						problems = append(problems, fmt.Sprintf("%s: `%s` adds a lookahead that is not the item's own under len(beta) == 0", p.Pos(x.Pos()), exprString(x)))
+					}
+				case "AddSet", "AddSlice":
+					if len(x.Args) == 1 {
+						classify(x.Args[0], x)
+					}
+				}
+			}
+			return true
+		})
+	}
+	sourcesOf(setObj)
+	switch {
+	case len(problems) > 0:
+		c.bad(rule, construct, p.Pos(fd.Pos()), "%s", strings.Join(sortedStrings(problems), "; "))
+	case nSources == 0:
+		c.unres(rule, construct, p.Pos(fd.Pos()), "no source of the lookahead set found")
+	default:
+		c.ok(rule, construct, p.Pos(fd.Pos()), "every source of the set the new items' lookaheads range over is FIRST(beta a) of the item being expanded (%d source(s))", nSources)
+	}
 }
